@@ -49,12 +49,14 @@ fn get_block_stack_table_removal_multiplicand<E: FieldElement<BaseField = Felt>>
     alphas: &[E],
 ) -> E {
     let block_id = main_trace.addr(i);
+    // the ID of the parent block is in the h1 register of the row following the RESPAN row; the
+    // h5 register of a RESPAN row holds an operation group, not the `is_loop` flag
     let parent_id = if is_respan {
-        main_trace.decoder_hasher_state_element(1, i + 1)
+        main_trace.decoder_hasher_state_element(1, i)
     } else {
         main_trace.addr(i + 1)
     };
-    let is_loop = main_trace.is_loop_flag(i);
+    let is_loop = if is_respan { ZERO } else { main_trace.is_loop_flag(i) };
 
     let elements = if main_trace.is_call_flag(i) == ONE || main_trace.is_syscall_flag(i) == ONE {
         let parent_ctx = main_trace.ctx(i + 1);
@@ -103,7 +105,7 @@ fn get_block_stack_table_inclusion_multiplicand<E: FieldElement<BaseField = Felt
 ) -> E {
     let block_id = main_trace.addr(i + 1);
     let parent_id = if op_code == RESPAN {
-        main_trace.decoder_hasher_state_element(1, i + 1)
+        main_trace.decoder_hasher_state_element(1, i)
     } else {
         main_trace.addr(i)
     };
